@@ -10,27 +10,88 @@ verus! {
 //@attr #[derive(Clone, Copy, PartialEq, Eq)]
 //@end
 
-/// i32.div_s: quotient truncated toward zero; None = trap
-spec fn wasm_div_s(a: int, b: int) -> Option<int> {
-  if b == 0 || (a == i32::MIN && b == -1) { None }
-  else if (a >= 0) == (b > 0) { Some(abs(a) / abs(b)) } else { Some(-(abs(a) / abs(b))) }
-}
-/// i32.rem_s: remainder with the sign of the dividend; None = trap
-spec fn wasm_rem_s(a: int, b: int) -> Option<int> {
-  if b == 0 { None }
-  else if a >= 0 { Some(abs(a) % abs(b)) } else { Some(-(abs(a) % abs(b))) }
-}
 spec fn abs(x: int) -> int { if x < 0 { -x } else { x } }
+
+/// WebAssembly i32.div_s / i32.rem_s (and Rust's `/`, `%`): the unique q, r with
+/// a == q*b + r, |r| < |b|, and r zero or of the sign of the dividend (truncation toward zero).
+spec fn truncating_div_rem(a: int, b: int, q: int, r: int) -> bool {
+  &&& q * b + r == a
+  &&& abs(r) < abs(b)
+  &&& (r == 0 || (r < 0) == (a < 0))
+}
+spec fn div_s_traps(a: int, b: int) -> bool { b == 0 || (a == i32::MIN && b == -1) }
+spec fn rem_s_traps(a: int, b: int) -> bool { b == 0 }
+
+proof fn lemma_euclid(x: int, d: int)
+  requires d != 0, x >= 0
+  ensures x == d * (x / d) + x % d, 0 <= x % d < abs(d)
+{
+  lemma_fundamental_div_mod(x, d);
+  if d > 0 { lemma_mod_bound(x, d); } else {
+    assert(0 <= x % d < -d) by (nonlinear_arith) requires d < 0;
+  }
+}
+
+/// vstd's model of Rust's signed division (the contract of i32::checked_div / checked_rem) is
+/// truncating division
+proof fn lemma_rust_div_rem_is_truncating(a: int, b: int)
+  requires b != 0
+  ensures truncating_div_rem(a, b, rust_div(a, b), rust_rem(a, b))  // :rust_division_truncates_toward_zero
+{
+  if a > 0 { lemma_euclid(a, b); assert(b * (a / b) == (a / b) * b) by (nonlinear_arith); }
+  else if a < 0 { lemma_euclid(-a, b); assert((-((-a) / b)) * b == -(b * ((-a) / b))) by (nonlinear_arith); }
+}
+
+/// for i32 operands (except MIN / -1) the truncating quotient and remainder fit i32
+proof fn lemma_truncating_div_rem_in_range(a: int, b: int, q: int, r: int)
+  requires i32::MIN <= a <= i32::MAX, i32::MIN <= b <= i32::MAX, b != 0, !(a == i32::MIN && b == -1),
+    truncating_div_rem(a, b, q, r)
+  ensures i32::MIN <= q <= i32::MAX, i32::MIN <= r <= i32::MAX  // :quotient_and_remainder_fit_i32
+{
+  assert(abs(q) <= abs(a)) by (nonlinear_arith) requires q * b + r == a, abs(r) < abs(b), (r == 0 || (r < 0) == (a < 0)), b != 0;
+  if q == 0x8000_0000 {
+    assert(a == i32::MIN);
+    assert(false) by (nonlinear_arith) requires q == 0x8000_0000, a == -0x8000_0000, q * b + r == a, abs(r) < abs(b), b != 0, b != -1, -0x8000_0000 <= b <= 0x7fff_ffff;
+  }
+}
+
+/// the law determines q and r uniquely, so "some q, r satisfy it" pins the folded value down
+proof fn lemma_truncating_div_rem_unique(a: int, b: int, q1: int, r1: int, q2: int, r2: int)
+  requires b != 0, truncating_div_rem(a, b, q1, r1), truncating_div_rem(a, b, q2, r2)
+  ensures q1 == q2 && r1 == r2  // :truncating_quotient_and_remainder_are_unique
+{
+  assert((q1 - q2) * b == r2 - r1) by (nonlinear_arith) requires q1 * b + r1 == a, q2 * b + r2 == a;
+  if q1 != q2 {
+    assert(abs((q1 - q2) * b) >= abs(b)) by (nonlinear_arith) requires q1 != q2, b != 0;
+    // r1, r2 have the same sign (that of a) or are zero, so |r2 - r1| < |b|
+    assert(abs(r2 - r1) < abs(b));
+  }
+}
 
 //@extract crates/samlang-optimization/src/conditional_constant_propagation.rs :: fn evaluate_bin_op
 //@ret r
 //@contract
     ensures
-      operator == BinaryOperator::DIV && r is Some ==> wasm_div_s(v1 as int, v2 as int) == Some(r->Some_0 as int),  // :folded_quotient_is_div_s
-      operator == BinaryOperator::DIV && wasm_div_s(v1 as int, v2 as int) is None ==> r is None,  // :trapping_division_is_not_folded
-      operator == BinaryOperator::MOD && r is Some ==> wasm_rem_s(v1 as int, v2 as int) == Some(r->Some_0 as int),  // :folded_remainder_is_rem_s
-      operator == BinaryOperator::MOD && v2 == 0 ==> r is None,  // :remainder_by_zero_is_not_folded
+      operator == BinaryOperator::DIV && r is Some ==> !div_s_traps(v1 as int, v2 as int)
+        && truncating_div_rem(v1 as int, v2 as int, r->Some_0 as int, rust_rem(v1 as int, v2 as int)),  // :folded_quotient_is_div_s
+      operator == BinaryOperator::DIV && div_s_traps(v1 as int, v2 as int) ==> r is None,  // :trapping_division_is_not_folded
+      operator == BinaryOperator::MOD && r is Some ==> !rem_s_traps(v1 as int, v2 as int)
+        && truncating_div_rem(v1 as int, v2 as int, rust_div(v1 as int, v2 as int), r->Some_0 as int),  // :folded_remainder_is_rem_s
+      operator == BinaryOperator::MOD && rem_s_traps(v1 as int, v2 as int) ==> r is None,  // :remainder_by_zero_is_not_folded
       operator == BinaryOperator::LT ==> r == Some(if v1 < v2 { 1i32 } else { 0i32 }),  // :lt_folds_to_flag
+//@before match operator {
+  proof {
+    if v2 != 0 {
+      lemma_rust_div_rem_is_truncating(v1 as int, v2 as int);
+      if !(v1 == i32::MIN && v2 == -1) {
+        assert(truncating_div_rem(v1 as int, v2 as int, rust_div(v1 as int, v2 as int), rust_rem(v1 as int, v2 as int)));
+        // |q| <= |a| and |r| < |b| : both fit i32
+        assert(abs(rust_div(v1 as int, v2 as int)) <= abs(v1 as int)) by (nonlinear_arith)
+          requires truncating_div_rem(v1 as int, v2 as int, rust_div(v1 as int, v2 as int), rust_rem(v1 as int, v2 as int)), v2 != 0;
+        lemma_truncating_div_rem_in_range(v1 as int, v2 as int, rust_div(v1 as int, v2 as int), rust_rem(v1 as int, v2 as int));
+      }
+    }
+  }
 //@end
 
 proof fn canary_must_fail_foldv() ensures false {}
